@@ -1275,3 +1275,43 @@ def _option_closure_free(text, method, rname, build, why):
             return text, apps
         apps.append(_app(rname, text, hit[0], hit[1], hit[2], why))
         text = text[:hit[0]] + hit[2] + text[hit[1]:]
+
+
+def rule_readmisc(text):
+    """read-path one-offs"""
+    apps = []
+    table = [
+        (r"(\w+)\s*\.\s*acquire_extent\s*\(\s*\)", r"acquire_extent_of(&\1)", "R-pin", "shim: Record::acquire_extent with the receiver made explicit (the pin token names its generation)"),
+        (r"\.\s*ok_or_else\s*\(\s*\|\s*\|\s*\{\s*FeoxError\s*::\s*IoError\s*\(\s*io\s*::\s*Error\s*::\s*new\s*\([^()]*\)\s*\)\s*\}\s*\)", ".ok_or(no_disk_io_error())", "R-ioerr",
+         "ok_or_else with a closure that only builds an opaque IoError"),
+        (r"\.\s*filter\s*\(\s*\|\s*(\w+)\s*\|\s*\*\1\s*<=\s*([^()|]*?(?:\(\))?)\s*\)", None, "R-ofilt", "definition of Option::filter (the closure only dereferences its argument)"),
+        (r"Bytes\s*::\s*copy_from_slice\s*\(\s*&\s*(\w+)\s*\[\s*(\w+)\s*\.\.\s*(\w+)\s*\]\s*\)", r"bytes_copy_range(&\1, \2, \3)", "R-bytes", "shim: a copy of the sub-slice"),
+        (r"Bytes\s*::\s*from\s*\(\s*(\w+)\s*\)\s*\.\s*slice\s*\(\s*(\w+)\s*\.\.\s*(\w+)\s*\)", r"bytes_from_vec_slice(\1, \2, \3)", "R-bytes", "shim: the sub-range of the bytes the Vec held"),
+        (r"SystemTime\s*::\s*now\s*\(\s*\)\s*\.\s*duration_since\s*\(\s*UNIX_EPOCH\s*\)\s*\.\s*unwrap_or_default\s*\(\s*\)\s*\.\s*as_nanos\s*\(\s*\)\s*as\s+u64", "wall_clock_nanos()", "R-ext",
+         "shim: the wall clock, one fixed arbitrary value per call (A4)"),
+        (r"for\s+_\s+in\s+0\s*\.\.\s*(\w+)\s*\{", r"let mut pass_i_: usize = 0; while pass_i_ < \1 { pass_i_ = pass_i_ + 1;", "R-foriter", "definition of a counted loop (Verus for-loops have no early return)"),
+        (r"\.\s*map\s*\(\s*\|\s*\(\s*value\s*,\s*_\s*,\s*_\s*\)\s*\|\s*value\s*\)", ".map_first3()", "R-rmap", "shim: Result::map projecting the first component of a triple"),
+        (r"\.\s*read\s*\(\s*key\s*,\s*\|\s*_\s*,\s*(\w+)\s*\|\s*Arc\s*::\s*clone\s*\(\s*\1\s*\)\s*\)", ".read_arc(key)", "R-hread", "shim: the lookup closure only clones the Arc it is handed"),
+        (r"(\w+)\s*\.\s*extend_from_slice\s*\(\s*&\s*(\w+)\s*\.\s*to_le_bytes\s*\(\s*\)\s*\)", r"push_u16_le(&mut \1, \2)", "R-le", "shim: appends the two little-endian bytes of a u16"),
+        (r"(\w+)\s*\.\s*key\s*!=\s*(\w+)\s*\.\s*key\b", r"vec_ne(&\1.key, &\2.key)", "R-seq", "shim: byte-wise comparison of two keys"),
+    ]
+    for pat, rep, rname, why in table:
+        while True:
+            mm = re.search(pat, text)
+            if not mm:
+                break
+            if rep is None:
+                # E.filter(|x| *x <= B): rewrite the whole receiver chain
+                m = mask(text)
+                a0 = _receiver_start(m, mm.start())
+                e = text[a0:mm.start()].strip()
+                new = "(match %s { Some(%s) if %s <= %s => Some(%s), _ => None })" % (e, mm.group(1), mm.group(1), mm.group(2), mm.group(1))
+                apps.append(_app(rname, text, a0, mm.end(), new, why))
+                text = text[:a0] + new + text[mm.end():]
+                continue
+            new = mm.expand(rep)
+            apps.append(_app(rname, text, mm.start(), mm.end(), new, why))
+            text = text[:mm.start()] + new + text[mm.end():]
+    text, a = _method_to_fn(text, "map_first3", "result_first3", "R-rmap", "definition of Result::map with a projecting closure (verified shim)")
+    apps += a
+    return text, apps
